@@ -482,9 +482,11 @@ package diam
 //@ spec serialisable(m *Message) bool = m != nil && m.Header != nil && wf(m.AVP) && len(m.AVP) < 1<<16 &&
 //@      sumlen(m.AVP, len(m.AVP)) >= 0 && sumlen(m.AVP, len(m.AVP)) < (1<<24) - 20
 //@
+//@ # NOT VERIFIED: the precondition of AVP.SerializeTo at the call in the loop (room for the AVP, from the partial sums)
+//@ # was not decided by any solver within the thorough budget. The contract below is therefore ASSUMED at its call
+//@ # sites (trusted) and listed as such in the evidence; the loop annotations are kept for a later attempt.
 //@ func (*Message).SerializeTo(m, b) (err)
-//@   property C01 C02 C07
-//@   tier thorough
+//@   trusted
 //@   requires serialisable(m) && len(b) >= 20 + sumlen(m.AVP, len(m.AVP))
 //@   assume destination_is_separate: apart(m.AVP, b)
 //@   hint wf.def(m.AVP)
